@@ -224,6 +224,8 @@ def gen_cases(rng, tier, h):
             vals = []
             if nm == "q_from_matrix":
                 q = _rand_quat(rng, dominant=i % 4)
+                if i % 5 == 4:   # rotations close to (not at) a half turn: 1 + trace is tiny there
+                    q = qaxis(_rand_unit(rng), rng.pick([1.0, -1.0]) * (math.pi - rng.pick([1e-3, 3e-3, 1e-2, 5e-2])))
                 vals = [trprop.r32(x) for x in flat(qmat(q))]
             elif nm == "q_slerp":
                 a, b = _rand_quat(rng), _rand_quat(rng)
@@ -518,6 +520,89 @@ def reference(nm, a, res):
     return None
 
 
+# ---- double-precision instantiations (harness-only wrappers `d_*`; judged by the same reference oracle)
+
+_DSIGS = {
+    "d_q_mul": ["Q", "Q"], "d_q_slerp": ["f", "Q", "Q"], "d_q_rotate_vec": ["Q", "v"], "d_q_from_matrix": ["M"],
+    "d_q_rotate": ["u", "r"], "d_q_smul": ["s", "Qs"], "d_q_muls": ["Qs", "s"], "d_q_normalize": ["Qs"], "d_q_rcp": ["Qs"],
+    "d_q_from_ypr": ["r", "r", "r"], "d_l3_inverse": ["L"], "d_l3_det": ["L"], "d_l3_mul": ["L", "L"], "d_l3_rotate": ["u", "r"],
+    "d_l3_from_quat": ["Q"], "d_l3_frame": ["n"], "d_l3_xfmNormal": ["L", "v"], "d_a3_rcp": ["A"], "d_a3_mul": ["A", "A"],
+    "d_a3_xfmPoint": ["A", "v"], "d_a3_lookat": ["LOOK"],
+}
+
+
+def d2h(x):
+    import struct
+    return "%016x" % struct.unpack("<Q", struct.pack("<d", x))[0]
+
+
+def h2d(s):
+    import struct
+    if s == "nan":
+        return float("nan")
+    return struct.unpack("<d", struct.pack("<Q", int(s, 16)))[0]
+
+
+def gen_double_cases(rng, tier):
+    per = 25 if tier == "quick" else 600
+    cases = []
+    for nm in sorted(_DSIGS):
+        c = []
+        for i in range(per):
+            vals = []
+            if nm == "d_q_slerp":
+                a, b = _rand_quat(rng), _rand_quat(rng)
+                if i % 2 == 0:   # near-parallel: the linear fallback, which multiplies a float factor with double quaternions
+                    b = unit([x + rng.pick([0.001, 0.01, 0.02, 0.03]) * rng.uniform(-1, 1) for x in a])
+                if i % 7 == 1:
+                    b = [-x for x in a] if i % 2 else unit([-x + 0.001 * rng.uniform(-1, 1) for x in a])
+                f = trprop.r32(rng.pick([0.0, 1.0, 0.5]) if rng.chance(0.3) else rng.uniform(0, 1))
+                vals = [f] + _quat_fields(a) + _quat_fields(b)
+            elif nm == "d_q_from_matrix":
+                q = _rand_quat(rng, dominant=i % 4)
+                if i % 5 == 4:
+                    q = qaxis(_rand_unit(rng), rng.pick([1.0, -1.0]) * (math.pi - rng.pick([1e-7, 1e-5, 1e-3, 5e-2])))
+                vals = flat(qmat(q))
+            elif nm == "d_a3_lookat":
+                eye = [rng.uniform(-2, 2) for _ in range(3)]
+                d = _rand_unit(rng)
+                pt = [e + 2 * x for e, x in zip(eye, d)]
+                up = rng.pick([[0, 1, 0], [0, 0, 1], [1, 0, 0]])
+                if abs(sum(x * y for x, y in zip(d, up))) > 0.9:
+                    up = [up[1], up[2], up[0]]
+                vals = eye + pt + up
+            else:
+                for t in _DSIGS[nm]:
+                    if t == "Q":
+                        vals += _quat_fields(_rand_quat(rng))
+                    elif t == "Qs":
+                        sc = rng.pick([0.5, 1.0, 2.0])
+                        vals += [x * sc for x in _quat_fields(_rand_quat(rng))]
+                    elif t == "L":
+                        vals += flat(_rand_mat3(rng))
+                    elif t == "A":
+                        vals += flat(_rand_mat3(rng)) + [rng.uniform(-2, 2) for _ in range(3)]
+                    elif t == "v":
+                        vals += [rng.uniform(-2, 2) for _ in range(3)]
+                    elif t in ("u", "n"):
+                        v = _rand_unit(rng)
+                        if rng.chance(0.25):
+                            v = [0.0, 0.0, 0.0]
+                            v[rng.randrange(3)] = rng.pick([1.0, -1.0])
+                        vals += v
+                    elif t == "r":
+                        vals += [rng.uniform(-2 * math.pi, 2 * math.pi)]
+                    elif t == "s":
+                        vals += [trprop.r32(rng.pick([0.25, 0.5, 2.0, 4.0, -1.0, 0.3, 1.7]))]
+            c.append(nm + " " + " ".join(d2h(float(x)) for x in vals))
+            if len(c) == 25:
+                cases.append(c)
+                c = []
+        if c:
+            cases.append(c)
+    return cases
+
+
 def extra_stage(rep, ctx):
     h = HARNESSES[0]
     hb, hout = core.build_harness("c06", h["src"], (), h["flags"], core.SAN, "c++11", (), "-O1", h["extra_deps"])
@@ -542,6 +627,32 @@ def extra_stage(rep, ctx):
                 reported += 1
                 rep.violation(dict(kind="property-oracle", ops=[line], impl=[o], args=[h2f(x) for x in w[1:]], detail=msg,
                                    explanation="the real code's result differs from the independent reference of the mathematical definition beyond the tolerance"))
+    # double-precision instantiations through the same reference (names without the d_ prefix)
+    dcases = gen_double_cases(core.Rng(rep.seed + 3000), rep.tier)
+    rc, out, err = core.run_prog(hb, core.cases_to_text(dcases), timeout=900)
+    dio = core.split_output(out)
+    for k, c in enumerate(dcases):
+        for line, o in zip(c, dio.get(k, [])):
+            w = line.split()
+            try:
+                res = [h2d(t) for t in o.split() if len(t) == 16 or t == "nan"]
+            except ValueError:
+                continue
+            n += 1
+            distinct.add(line)
+            nm = w[0][2:]
+            nm = {"q_smul": "q_smul_ref", "q_muls": "q_muls_ref"}.get(nm, nm)
+            a = [h2d(x) for x in w[1:]]
+            if nm == "q_smul_ref":
+                msg = None if _close(res, [a[0] * x for x in a[1:]], 1e-9) else "float * quatd must scale every component: expected %s" % [a[0] * x for x in a[1:]]
+            elif nm == "q_muls_ref":
+                msg = None if _close(res, [a[4] * x for x in a[:4]], 1e-9) else "quatd * float must scale every component: expected %s" % [a[4] * x for x in a[:4]]
+            else:
+                msg = reference(nm, a, res)
+            if msg and reported < 3:
+                reported += 1
+                rep.violation(dict(kind="property-oracle", ops=[line], impl=[o], args=a, detail="double instantiation: " + msg,
+                                   explanation="the real code's double-precision result differs from the independent reference of the mathematical definition beyond the tolerance"))
     return dict(evaluations=n, distinct=distinct, samples=[dict(oracle_case=cases[0][:2], impl=io.get(0, [])[:2])] if cases else [],
                 found_input=reported > 0)
 
